@@ -57,6 +57,20 @@ func SetC29SeveralPerProposal(g *Gen, on bool) {
 	}
 }
 
+// drain mode: proposals ask for exactly the limit, so that the committee's
+// remaining funds fall below the 10% cap and proposals of one block compete
+// for them (proposalsUsedAmount).
+var c29Drain = map[*Gen]bool{}
+
+// SetC29Drain switches the drain mode for g.
+func SetC29Drain(g *Gen, on bool) {
+	if on {
+		c29Drain[g] = true
+	} else {
+		delete(c29Drain, g)
+	}
+}
+
 func c29Subject(g *Gen, prefix string, hash common.Uint256) string {
 	s := fmt.Sprintf("%s-%x", prefix, hash[:6])
 	if c29Dup[g] {
@@ -213,6 +227,10 @@ func candProposal(g *Gen, t *rapid.T, spent map[string]bool) *cand {
 	}
 	mode := "within"
 	typ := rapid.IntRange(0, 11).Draw(t, "proptype")
+	drain := c29Drain[g] && rapid.IntRange(0, 3).Draw(t, "drain") > 0
+	if drain {
+		typ = 5
+	}
 	if typ == 0 && h >= k.Params.CRConfiguration.CRCProposalV1Height {
 		// close a proposal that the voters agreed to
 		target := g.pickProposal(t, "closetarget", func(ps *crstate.ProposalState) bool { return ps.Status == crstate.VoterAgreed })
@@ -231,7 +249,11 @@ func candProposal(g *Gen, t *rapid.T, spent map[string]bool) *cand {
 		bs = []payload.Budget{{Type: payload.Imprest, Stage: 0}, {Type: payload.FinalPayment, Stage: 1}}
 	}
 	var total common.Fixed64
-	switch rapid.IntRange(0, 9).Draw(t, "budgetmode") {
+	bmode := rapid.IntRange(0, 9).Draw(t, "budgetmode")
+	if drain {
+		bmode = 4
+	}
+	switch bmode {
 	case 0, 1, 2, 3:
 		total = pos(limit / 8 * common.Fixed64(rapid.IntRange(1, 8).Draw(t, "eighths")))
 	case 4:
@@ -281,7 +303,20 @@ func candProposal(g *Gen, t *rapid.T, spent map[string]bool) *cand {
 		}
 	}
 	if mode != "wrapping-sum" {
-		parts := split(t, total, len(bs))
+		// mostly stages above the real-withdraw fee (a payload-v1 withdrawal of
+		// less is refused), sometimes any split
+		var parts []common.Fixed64
+		floor := common.Fixed64(20000)
+		if total >= floor*common.Fixed64(len(bs))+common.Fixed64(len(bs)) && rapid.IntRange(0, 5).Draw(t, "rawsplit") > 0 {
+			parts = split(t, total-floor*common.Fixed64(len(bs)), len(bs))
+			if len(parts) == len(bs) {
+				for i := range parts {
+					parts[i] += floor
+				}
+			}
+		} else {
+			parts = split(t, total, len(bs))
+		}
 		if len(parts) < len(bs) {
 			// total too small to split: everything on the last stage
 			for i := range bs {
@@ -332,7 +367,7 @@ func candReview(g *Gen, t *rapid.T, spent map[string]bool) *cand {
 	member := g.crKey(mi)
 	version := k.proposalVersion()
 	res := payload.Approve
-	switch rapid.IntRange(0, 9).Draw(t, "opinion") {
+	switch rapid.IntRange(0, 15).Draw(t, "opinion") {
 	case 0:
 		res = payload.Reject
 	case 1:
